@@ -532,6 +532,57 @@ pub fn family(tier: Tier) -> Vec<Spec> {
             }
         }
     }
+    // byte classes with arithmetic structure (anything a code generator could test with a mask, an
+    // OR, a subtraction instead of comparisons): every pair of bytes that differ in exactly one bit,
+    // every power-of-two aligned range, each also moved / stretched by one at either end - as the
+    // only edge of a state (comparison chain), next to two other edges (jump table) and in a loop
+    {
+        fn bx(b: u8) -> String {
+            format!("\\x{b:02x}")
+        }
+        let mut classes: Vec<String> = vec![];
+        let step = if tier == Tier::Thorough { 1 } else { 3 };
+        for lo in (0..=255u8).step_by(step) {
+            for bit in 0..8 {
+                let hi = lo | (1 << bit);
+                if hi != lo {
+                    classes.push(format!("[{}{}]", bx(lo), bx(hi)));
+                }
+            }
+        }
+        // the pairs 32 apart (ASCII case pairs and their look-alikes) always, at every position
+        for lo in 0..=223u8 {
+            classes.push(format!("[{}{}]", bx(lo), bx(lo + 32)));
+        }
+        for k in 1..8u32 {
+            let w = 1u32 << k;
+            for lo in (0..256u32).step_by(w as usize) {
+                let hi = lo + w - 1;
+                classes.push(format!("[{}-{}]", bx(lo as u8), bx(hi as u8)));
+                if tier == Tier::Thorough || k >= 3 {
+                    if lo > 0 {
+                        classes.push(format!("[{}-{}]", bx(lo as u8 - 1), bx(hi as u8)));
+                    }
+                    if hi < 255 {
+                        classes.push(format!("[{}-{}]", bx(lo as u8), bx(hi as u8 + 1)));
+                    }
+                    classes.push(format!("[{}-{}]", bx(lo as u8 + 1), bx(hi as u8)));
+                    classes.push(format!("[{}-{}]", bx(lo as u8), bx(hi as u8 - 1)));
+                }
+            }
+        }
+        for (i, c) in classes.iter().enumerate() {
+            let shape = match i % 3 {
+                0 => format!("\\x01{c}\\x02"),
+                1 => format!("\\x01(?:{c}\\x02|\\x03\\x04|\\x05\\x06)"),
+                _ => format!("\\x01{c}+\\x02"),
+            };
+            specs.push(Spec::new(false, vec![Pat::bregex(shape.as_bytes())]));
+            if tier == Tier::Thorough {
+                specs.push(Spec::new(false, vec![Pat::bregex(format!("\\x01{c}\\x02").as_bytes()), Pat::bregex(b"[\\x00-\\xff]").prio(1)]));
+            }
+        }
+    }
     // dedupe
     let mut seen = std::collections::HashSet::new();
     specs.retain(|s| seen.insert(s.clone()));
